@@ -117,15 +117,33 @@ Print Assumptions C08_chunk_restored.
     leaf spans of the file and calling Sum yields a root reference spanning the
     file, and every intermediate chunk it hands to the short pipeline carries
     exactly the number of references that the reader recovers from its span:
-    recovered length = refsize * stored references *)
-Theorem C08_writer_reader_agree : forall size : N, 0 < size -> size + chunk <= W64 ->
+    recovered length = refsize * stored references.  [proc] is whatever the stages of the short
+    pipeline (encryption!) did to the first 8 bytes of the chunk data: the writer forwards the
+    plaintext [args.Span] ([p_span]), so the statement holds for every [proc]. *)
+Theorem C08_writer_reader_agree : forall (proc : N -> N) (size : N), 0 < size -> size + chunk <= W64 ->
   exists em,
-    trie_run (N.to_nat branching) (leaf_spans chunk size) = Ok (size, em) /\
+    trie_run p_span proc (N.to_nat branching) (leaf_spans chunk size) = Ok (size, em) /\
     Forall (fun e => chunk < fst e /\ root_refs chunk branching (fst e) = Some (snd e) /\
                      2 <= snd e <= branching /\
                      recover chunk refsize (fst e) = Some (refsize * snd e)) em.
-Proof. exact (fun size => writer_reader_agree chunk branching refsize side_chunk side_b side_rs side_w size side_k7). Qed.
+Proof. exact (fun proc size => writer_reader_agree chunk branching refsize side_chunk side_b side_rs side_w proc size side_k7). Qed.
 Print Assumptions C08_writer_reader_agree.
+
+(** ... and it has to: a writer that forwards [args.Data[:8]] instead ([p_data8]) — correct
+    only when the stages leave the span alone — stores a wrong span one level up as soon as the
+    data was processed (encrypted pipeline), already for three leaf chunks at branching 2:
+    the root span is not the file size. *)
+Theorem C08_span_must_be_plaintext :
+  exists (proc : N -> N) (size : N) root em,
+    trie_run p_data8 proc 2 (leaf_spans 128 size) = Ok (root, em) /\ root <> size /\
+    (forall proc', exists em', trie_run p_span proc' 2 (leaf_spans 128 size) = Ok (size, em')).
+Proof.
+  exists (fun s => N.lxor s 11936128518282651045), 384, 128,
+         [(256, 2); (11936128518282650917, 2)].
+  split; [vm_compute; reflexivity|]. split; [discriminate|].
+  intros proc'. eexists. vm_compute. reflexivity.
+Qed.
+Print Assumptions C08_span_must_be_plaintext.
 
 (** non-vacuity: a concrete hash with 32-byte digests, a 32-byte key, a payload
     that is padded, and spans on three tree heights *)
@@ -139,7 +157,7 @@ Example C08_hyps_satisfiable :
   root_refs chunk branching (chunk * branching + 1) = Some 2 /\
   root_refs chunk branching (chunk * branching * 7) = Some 7 /\
   recover chunk refsize (chunk * branching * branching * 5 + 1) = Some (refsize * 6) /\
-  trie_run 2 (leaf_spans 128 (128 * 5 + 3)) = Ok (643, [(256, 2); (256, 2); (512, 2); (131, 2); (643, 2)]).
+  trie_run p_span (fun s => s + 1) 2 (leaf_spans 128 (128 * 5 + 3)) = Ok (643, [(256, 2); (256, 2); (512, 2); (131, 2); (643, 2)]).
 Proof.
   cbn zeta. split; [cbn; lia|]. split; [intros x; rewrite repeat_length; cbn; lia|].
   split; [|vm_compute; repeat split; reflexivity].
